@@ -98,7 +98,11 @@ class Compile(BaseCompile):
     @staticmethod
     def convert_args(context, lang, kwargs):
         def pch(file, **kwargs):
-            return context['precompiled_header'](file, file, **kwargs)
+            # Let the output be named after the header like any other
+            # implicitly named output (a header given by an absolute path
+            # would otherwise put the precompiled header beside itself).
+            name = file if isinstance(file, PrecompiledHeader) else None
+            return context['precompiled_header'](name, file, **kwargs)
 
         includes = kwargs.get('includes')
         kwargs['include_deps'] = [
